@@ -236,7 +236,7 @@ def _gdot(gram, d):
 
 
 def gen_molecular(rng, row, nmols=1, sizes=(2, 3), n=48, vol_per_atom=32.0, with_h=True, max_tries=400,
-                  boundary_prob=0.6, oblique=False):
+                  boundary_prob=0.6, oblique=False, gram_fn=None, min_vol=150.0):
     """A molecular crystal on the grid: `nmols` rigid mini-molecules (trees of bonded atoms) on general
     positions of setting `row`, bonded distances <= 1.5 A (X-H <= 1.12 A), every other contact >= 2.2 A.
     Returns a recipe dict (see build_crystal) with 'mols' = list of lists of asym indices (1-based) and
@@ -245,10 +245,10 @@ def gen_molecular(rng, row, nmols=1, sizes=(2, 3), n=48, vol_per_atom=32.0, with
     ops = row["ops"]
     nops = len(ops)
     for attempt in range(max_tries):
-        gram = sym_gram(ops, rng, oblique=oblique, maxentry=1500)
+        gram = gram_fn(rng) if gram_fn else sym_gram(ops, rng, oblique=oblique, maxentry=1500)
         szs = [rng.choice(sizes) for _ in range(nmols)]
         nat = sum(szs)
-        vol = max(nops * nat * vol_per_atom * (1.0 + 0.04 * attempt), 150.0)
+        vol = max(nops * nat * vol_per_atom * (1.0 + 0.04 * attempt), min_vol)
         bprob = boundary_prob if attempt % 3 == 0 else 0.15
         u = (vol / math.sqrt(det3(gram))) ** (1.0 / 3.0)
         s2 = u * u / (n * n)                      # Angstrom^2 per grid unit^2
